@@ -391,6 +391,56 @@ func subT(a, b Term) Term {
 	}
 	return "(- " + a + " " + b + ")"
 }
+// goDivT / goModT: Go's truncated division. With a literal positive divisor the linear
+// definition is inlined; with a symbolic divisor an uninterpreted function is used (its
+// definition is available to a contract through `reveal go_div`) because div/mod by a symbolic
+// term makes the solvers time out even on goals that only need congruence.
+func isPosLit(t Term) bool {
+	if t == "" || t == "0" {
+		return false
+	}
+	for _, c := range t {
+		if c < '0' || c > '9' {
+			return false
+		}
+	}
+	return true
+}
+func (vc *VC) goDiv(a, b Term) Term {
+	if isPosLit(b) {
+		vc.noteDivLit(b)
+	}
+	return "(go_div " + a + " " + b + ")"
+}
+func (vc *VC) goMod(a, b Term) Term {
+	if isPosLit(b) {
+		vc.noteDivLit(b)
+	}
+	return "(go_mod " + a + " " + b + ")"
+}
+
+// noteDivLit: for every literal divisor c the (linear) definition of go_div(.,c) / go_mod(.,c)
+// is added as an axiom triggered on terms dividing by c.
+func (vc *VC) noteDivLit(c Term) {
+	// Disabled: even the linear definition makes goals that only need congruence time out
+	// when the dividend is a large non-linear term. Contracts that need the meaning of
+	// go_div / go_mod say `reveal go_div`.
+	if true {
+		return
+	}
+	key := "divlit:" + c
+	if vc.pureDecl[key] {
+		return
+	}
+	vc.pureDecl[key] = true
+	vc.permDecls = append(vc.permDecls,
+		fmt.Sprintf("(assert (forall ((a Int)) (! (= (go_div a %s) (ite (>= a 0) (div a %s) (- (div (- a) %s)))) :pattern ((go_div a %s)))))", c, c, c, c),
+		fmt.Sprintf("(assert (forall ((a Int)) (! (= (go_mod a %s) (ite (>= a 0) (mod a %s) (- (mod (- a) %s)))) :pattern ((go_mod a %s)))))", c, c, c, c))
+}
+
+const goDivDef = `(assert (forall ((a Int) (b Int)) (! (= (go_div a b) (ite (>= a 0) (ite (> b 0) (div a b) (- (div a (- b)))) (ite (> b 0) (- (div (- a) b)) (div (- a) (- b))))) :pattern ((go_div a b)))))
+(assert (forall ((a Int) (b Int)) (! (= (go_mod a b) (- a (* b (go_div a b)))) :pattern ((go_mod a b)))))`
+
 func sref(s Term) Term { return "(Slice_ref " + s + ")" }
 func soff(s Term) Term { return "(Slice_off " + s + ")" }
 func slen(s Term) Term { return "(Slice_len " + s + ")" }
